@@ -548,6 +548,11 @@ def eq_formula(I, ctx, a, b):
             return smt.simp(x.attrs["is_none"]())
     if a is None or b is None:
         return a is b
+    if isinstance(a, ClassVal) and isinstance(b, ClassVal) and a is not b:
+        # classes whose metaclass compares them by the hash of their name (the enumeration metaclass): equal when the names are
+        from .interp import class_hashed_by_name
+        if class_hashed_by_name(a) and class_hashed_by_name(b):
+            return a.name == b.name
     if isinstance(a, Sym) or isinstance(b, Sym):
         if not (is_num(a) and is_num(b)):
             return False
